@@ -84,7 +84,9 @@ func runWorker(dir string, u *Unit, watchdog time.Duration, verbose bool) *done 
 		cmd.Stderr = ev.Out
 	}
 	cmd.Stdout = nil
-	cmd.Env = append(os.Environ(), "GOTRACEBACK=single")
+	// workers create their scratch data inside the parent's directory, so that it
+	// disappears with it even when a worker dies
+	cmd.Env = append(os.Environ(), "GOTRACEBACK=single", "VERIF_SCRATCH="+dir)
 	t0 := time.Now()
 	if err := cmd.Start(); err != nil {
 		ev.HarnessError("cannot start worker: %v", err)
